@@ -8,7 +8,7 @@ use super::{
     linked_list::DualLinkedList,
     CQueue,
 };
-use std::{alloc::Layout, cell::{Cell, RefCell}, collections::VecDeque, ptr::NonNull, time::Duration};
+use std::{alloc::Layout, cell::{Cell, RefCell}, ptr::NonNull, time::Duration};
 
 /// One bookkeeping action of the page allocator (`stable/alloc.rs`).
 /// `size` / `align` are those of the `Layout` passed by the caller (before normalisation).
@@ -166,27 +166,26 @@ pub struct QueueSnapshot {
 
 impl<E> CQueue<E> {
     /// `CQueue::new` with an explicit allocator page size (instead of `page_size::get()`).
+    ///
+    /// Built from `CQueue::new`, so that fields added to `CQueue` need no change here: only the
+    /// allocator and the bucket lists (which hold handles to it) are replaced. What the
+    /// throw-away default allocator does meanwhile is not reported to the observer.
     #[must_use]
     pub fn verif_with_page_size(n: usize, t: Duration, page_size: usize) -> Self {
-        let t_all = t.as_nanos() * n as u128;
+        let log = LOG.with(|l| l.borrow_mut().take());
+        let limit = PAGE_LIMIT.with(|c| c.replace((0, 0)));
+        let mut queue = Self::new(n, t);
+        // the lists of `new` go first: their allocator must outlive them
+        queue.buckets = Vec::new();
+        LOG.with(|l| *l.borrow_mut() = log);
+        PAGE_LIMIT.with(|c| c.set(limit));
+
         let mut alloc = Box::new(CQueueLLAllocatorInner::with_page_size(page_size));
-        Self {
-            n,
-            t_nanos: t.as_nanos(),
-            t,
-            zero_event_bucket: VecDeque::with_capacity(64),
-            buckets: std::iter::repeat_with(|| DualLinkedList::new(alloc.handle()))
-                .take(n)
-                .collect(),
-            head: 0,
-            t_current: Duration::ZERO,
-            t0: Duration::ZERO,
-            t1: t,
-            t_all,
-            alloc,
-            event_id: 0,
-            len: 0,
-        }
+        queue.buckets = std::iter::repeat_with(|| DualLinkedList::new(alloc.handle()))
+            .take(n)
+            .collect();
+        queue.alloc = alloc;
+        queue
     }
 
     /// Size and alignment of the list node the allocator is asked for on every insertion.
